@@ -470,6 +470,10 @@ func (m *machine) ValidTransition(to *State) error {
 
 	newError := func(s string) error { return NewStateTransitionError(m.params.id, s) }
 
+	if m.currentTX.State == nil {
+		return newError("no current state")
+	}
+
 	if err := AppShouldEqual(m.params.App, to.App); err != nil {
 		return newError(fmt.Sprintf("new state's App doesn't match: %v", err))
 	}
